@@ -12,8 +12,8 @@ CONSTANTS
   Mode = "pkts"
   MaxStreams = 1
   MaxPkts = 3
-  Sizes = {-1, 0, 1, 3}
+  Sizes = {99, 0, 1, 3}
   Steps = {0, 1, 8, 24, 32}
   EmitK = 3
   Exempt = FALSE
-INVARIANTS RoundTrip Lookups SortedLookups Emit
+INVARIANTS Check
